@@ -325,14 +325,53 @@ fn tui_state(app: &Jet1090) -> Value {
         "sort_asc": app.sort_asc,
         "width": app.width,
         "n": app.items.len(),
+        "tracked": app.state_vectors.len(),
     })
 }
 
-/// {"cmd":"tui","n":rows,"keys":["j","Esc","Tick:80",...]}
+/// The table of the `tui` command: n displayed rows (items) and m tracked aircraft
+/// (state_vectors); the two differ in production whenever build_table hides aircraft.
+/// The tracked aircraft are empty state vectors under the keys 000001, 000002, ...
+fn new_tui_app(n_items: usize, n_tracked: usize, width: u16) -> Jet1090 {
+    let mut app = new_app(n_items, width);
+    for i in 0..n_tracked {
+        let icao24 = format!("{:06x}", i + 1);
+        let cur = snapshot::Snapshot {
+            icao24: icao24.clone(),
+            firstseen: 0,
+            lastseen: 0,
+            callsign: None,
+            registration: None,
+            typecode: None,
+            squawk: None,
+            latitude: None,
+            longitude: None,
+            altitude: None,
+            selected_altitude: None,
+            groundspeed: None,
+            vertical_rate: None,
+            track: None,
+            ias: None,
+            tas: None,
+            mach: None,
+            roll: None,
+            heading: None,
+            nacp: None,
+            count: 0,
+            metadata: vec![],
+        };
+        app.state_vectors
+            .insert(icao24, snapshot::StateVectors { cur, hist: vec![] });
+    }
+    app
+}
+
+/// {"cmd":"tui","n":rows,"tracked":m,"keys":["j","Esc","Tick:80",...]}
 fn tui(req: &Value) -> Value {
     let n = req["n"].as_u64().unwrap_or(0) as usize;
+    let m = req["tracked"].as_u64().unwrap_or(0) as usize;
     let keys = req["keys"].as_array().cloned().unwrap_or_default();
-    let app = Mutex::new(new_app(n, 100));
+    let app = Mutex::new(new_tui_app(n, m, 100));
     let mut states = Vec::new();
     let init = tui_state(&app.try_lock().unwrap());
     for k in keys.iter() {
